@@ -58,7 +58,9 @@ GFinishT == /\ ~done /\ (conn = "down" \/ Len(hist) = MaxLen + 1)
 GSpecT == GInitT /\ [][GStepT \/ GFinishT]_gvars
 
 \* ---------------------------------------------------------------- simulation
+\* (a third of the drawn ids change no level, so that level-less depth updates occur)
 CHANGE == [side : {"b", "a"}, p : PRICE, a : AMOUNT]
+DrawChange(j) == IF RandomElement(1..3) = 1 THEN NoLevel ELSE RandomElement(CHANGE)
 Trivial == <<[side |-> "b", p |-> CHOOSE p \in PRICE : TRUE, a |-> 0]>>
 
 \* Random draws (HOWTO "TLC pitfalls"): every draw is bound through a singleton set and stored in a
@@ -78,7 +80,7 @@ GInitR == /\ InitWith("Spot", [i \in INSTR |-> Trivial], [i \in INSTR |-> <<1>>]
 \* step 1: the world is drawn into the state variables; there is no connection yet
 GSetup == /\ phase = "setup" /\ phase' = "open"
           /\ \E r \in {RandomElement(RULES)}, x \in {RandomElement(EXPECTED)},
-                ch \in {[i \in INSTR |-> [j \in 1..MCM |-> RandomElement(CHANGE)]]},
+                ch \in {[i \in INSTR |-> [j \in 1..MCM |-> DrawChange(j)]]},
                 cs \in {[i \in INSTR |-> RandomElement(SUBSET (1..(MCM - 1)))]} :
                rule' = r /\ expected' = x /\ chg' = ch /\ cut' = [i \in INSTR |-> AscSeq(cs[i] \cup {MCM})]
           /\ conn' = "down" /\ nreinit' = -1 /\ book' = NoBooks
